@@ -1286,6 +1286,17 @@ class Lower:
             return ln + self.throw(th, ind)
         if k == 'IfStmt':
             ins = self.inner(n)
+            if n.get('hasVar') and not n.get('hasInit') and ins and ins[0].get('kind') == 'DeclStmt':
+                # if (T v = init) S1 else S2: the variable is declared in a block around the statement and tested
+                self.scopes.append([])
+                s = ln + pad + '{\n' + self.S(ins[0], ind + 1)
+                c = self.cond(ins[1], 'if')
+                s += self.flush_pre(ind + 1) + pad + '    if (%s)\n' % c + self.blk(ins[2], ind + 1)
+                if n.get('hasElse'):
+                    s += pad + '    else\n' + self.blk(ins[3], ind + 1)
+                s += self.dtors(ind + 1, 1) + pad + '}\n'
+                self.scopes.pop()
+                return s
             if n.get('hasInit') or n.get('hasVar'):
                 raise Abort('if with init/var in %s' % self.cur_fn)
             c = self.cond(ins[0], 'if')
